@@ -40,7 +40,7 @@ package xpath
 //@   ensures result == xp_boolean(iface(n))
 //@ func (numDatum).Literal
 //@   nopanic
-//@   ensures implies(smt("Bool", "(or (fp.isInfinite %s) (fp.isZero %s))", n.num, n.num), result == xp_string(iface(n)))
+//@   ensures result == xp_string(iface(n))
 //@ func (boolDatum).Number
 //@   nopanic
 //@   ensures same(result, xp_number(iface(b)))
